@@ -11,6 +11,7 @@ import Ctrmml.Model.MdsConv
 import Ctrmml.Spec.SeqWf
 import Ctrmml.Proofs.CodecBreak
 import Ctrmml.Proofs.CodecWalkLoops
+import Ctrmml.Proofs.CodecTrack
 namespace Ctrmml.C03
 open Ctrmml Ctrmml.Mds Ctrmml.Seq Tables
 
@@ -217,6 +218,27 @@ theorem C03_stream_terminated_loops_partial (nS nM : Nat) (ts : List Node) (hl :
         ∀ fuel, fuel ≥ e'.out.length + 1 →
           SeqWf.walk (e'.out ++ [mds_FINISH]) 0 fuel { pc := 0 } = .ok (e'.out.length + 1)) :=
   walk_accepts_loops nS nM ts hl farg
+
+/-- **The general single track** `ta, SEGNO, tb, JUMP` (bracket structures with nested counted loops
+with and without break over the linear fragment; loop point at depth 0; stream < 64 KiB): the
+walker accepts the stream and the interpreter never reads outside / meets an unknown opcode / a
+missing length / an empty loop stack, however often the jump is followed. -/
+theorem C03_track_wellformed_partial (nS nM : Nat) (ta tb : List Node) (ha : linL ta = true) (hb : linL tb = true)
+    (jarg : Nat) :
+    ∃ eA eB, encL nS nM ta {} = .ok eA ∧ encL nS nM tb (afterSegno eA) = .ok eB ∧
+      ((trackBytes eB).length < 65536 →
+        convertTrack nS nM (flatL ta ++ [⟨mds_SEGNO, 0⟩] ++ flatL tb ++ [⟨mds_JUMP, jarg⟩]) = .ok (trackBytes eB) ∧
+        (∀ fuel, fuel ≥ (trackBytes eB).length →
+          SeqWf.walk (trackBytes eB) 0 fuel { pc := 0 } = .ok (trackBytes eB).length) ∧
+        ∀ (base mj maxTicks fuel : Nat) (ln lr : Option Nat),
+          (run (trackBytes eB) base mj maxTicks fuel { pc := 0, lastNote := ln, lastRest := lr }).2 ∈
+            [Stop.finished, Stop.fuel, Stop.tooManyTicks]) := by
+  obtain ⟨eA, eB, hA, hB, h⟩ := codec_roundtrip_track nS nM ta tb ha hb jarg
+  obtain ⟨eA', eB', hA', hB', h'⟩ := walk_accepts_track nS nM ta tb ha hb jarg
+  rw [hA] at hA'; injection hA' with hA'; subst hA'
+  rw [hB] at hB'; injection hB' with hB'; subst hB'
+  exact ⟨eA, eB, hA, hB, fun hlen => ⟨(h hlen).1, (h' hlen).2,
+    fun base mj maxTicks fuel ln lr => ((h hlen).2 base mj ln lr).safe maxTicks fuel⟩⟩
 
 example : ∃ bytes, convertTrack 0 0 ([⟨0xa6, 24⟩] ++ [⟨mds_JUMP, 0⟩]) = .ok bytes := ⟨_, rfl⟩
 example : linL [.loop [.ev ⟨0xa6, 24⟩] 2] = true ∧ noBreakL [.loop [.ev ⟨0xa6, 24⟩] 2] = true := by decide
